@@ -92,9 +92,20 @@ class Blockwise(ArrayExpr):
             return meta
 
     @cached_property
+    def _unified(self):
+        # One unification per node, shared by ``chunks`` (the advertised layout)
+        # and ``_lower`` (the layout the operands are brought to).
+        # ``unify_chunks_expr`` reads the unify-chunks policy and limit from the
+        # config; evaluating it twice lets the advertised and the lowered layout
+        # disagree when the config changes in between (build under one policy,
+        # compute under another), and parents that baked per-block arguments
+        # from ``chunks`` then meet a different block grid.
+        return unify_chunks_expr(*self.args)
+
+    @cached_property
     def chunks(self):
         if self.align_arrays:
-            chunkss, arrays, _ = unify_chunks_expr(*self.args)
+            chunkss = dict(self._unified[0])
         else:
             arginds = [(a, i) for (a, i) in toolz.partition(2, self.args) if i is not None]
             chunkss = {}
@@ -494,7 +505,7 @@ class Blockwise(ArrayExpr):
 
     def _lower(self):
         if self.align_arrays:
-            _, arrays, changed = unify_chunks_expr(*self.args)
+            _, arrays, changed = self._unified
             if changed:
                 args = []
                 for idx, arr in zip(self.args[1::2], arrays):
@@ -1023,7 +1034,7 @@ class Elemwise(Blockwise):
         # Elemwise stores just arrays in operands, but args generates (array, indices) pairs.
         # After unifying chunks, we only pass the unified arrays (not indices) to the constructor.
         if self.align_arrays:
-            _, arrays, changed = unify_chunks_expr(*self.args)
+            _, arrays, changed = self._unified
             if changed:
                 # Only pass the unified arrays, not the indices
                 # When where is an array, the last two arrays are where and out
